@@ -4,6 +4,7 @@ package main
 
 import (
 	"fmt"
+	"go/token"
 	"go/types"
 	"regexp"
 	"sort"
@@ -311,13 +312,14 @@ func runDurRemove(c *Ctx, r *RuleRun) {
 		ins   ssa.Instruction
 		class string
 		via   string
+		depth int
 	}
 	// direct sites, and propagation through methods that remove a file named by a field of their receiver
 	var work []site
 	for _, f := range p.Funcs {
 		for _, fe := range d.byFn[f] {
 			if fe.Kind == "remove" || fe.Kind == "truncate" {
-				work = append(work, site{fe.Ins, fe.Class, ""})
+				work = append(work, site{fe.Ins, fe.Class, "", 0})
 			}
 		}
 	}
@@ -339,7 +341,7 @@ func runDurRemove(c *Ctx, r *RuleRun) {
 						if strings.HasSuffix(p.Fset.Position(cs.Pos()).Filename, "_test.go") {
 							continue
 						}
-						work = append(work, site{cs, s.class, p.FnName(f)})
+						work = append(work, site{cs, s.class, p.FnName(f), s.depth + 1})
 					}
 					if len(callers) > 0 {
 						continue
@@ -375,6 +377,26 @@ func runDurRemove(c *Ctx, r *RuleRun) {
 			}
 		}
 		_ = isRemove
+		// not justified inside this function: a helper that only removes what it is told to - the obligation then lies
+		// with every call site of the helper
+		if s.depth < 3 && !token.IsExported(f.Name()) {
+			var callers []ssa.CallInstruction
+			for _, cs := range p.CallersOf(f) {
+				if !strings.HasSuffix(p.Fset.Position(cs.Pos()).Filename, "_test.go") {
+					callers = append(callers, cs)
+				}
+			}
+			if len(callers) > 0 && len(w) > 0 && w[0].Block() == f.Blocks[0] {
+				for _, cs := range callers {
+					via := p.FnName(f)
+					if s.via != "" {
+						via = s.via
+					}
+					work = append(work, site{cs, s.class, via, s.depth + 1})
+				}
+				continue
+			}
+		}
 		r.Viol(fn, construct, pos, "a "+s.class+" file can be removed on a path on which nothing durable replaces it yet (no table fsynced and renamed into place before the removal; for a wal also: its entries were not re-logged, and the memtable is not known to be empty)", p.describePath(w)...)
 	}
 }
